@@ -518,6 +518,13 @@ func c01ReadRequest(data []byte, firstMeta []c01KV, op *c01Obs) {
 		o.RR.Method, o.RR.Version = []byte(req.Method), []byte(req.Version)
 		o.RR.ReqID, o.RR.LogLevel = []byte(req.RequestID), []byte(req.LogLevel)
 		o.RR.Schema = c01SchemaView(req.Batch.Schema())
+		if c01InChild {
+			// malformed bytes: only the outcome class is observed. Rendering the cells
+			// of a batch decoded from corrupt buffers is the harness touching them,
+			// not ReadRequest (what consumers of the batch do is C03's business).
+			req.Batch.Release()
+			return
+		}
 		bv := c01BatchView(req.Batch)
 		bv.Meta = nil
 		o.RR.Batch = &bv
@@ -1014,6 +1021,143 @@ func c01SmallBodies() [][]byte {
 	return out
 }
 
+// ---------------------------------------------------------------- structure-aware corruption
+
+// c01Msg locates one encapsulated IPC message inside well-formed bytes.
+type c01Msg struct{ metaStart, metaLen, bodyStart, bodyLen int }
+
+// c01WalkMessages walks the framing of bytes this harness produced itself
+// (continuation marker, metadata length, flatbuffer Message.bodyLength) and
+// panics unless it accounts for every byte, so a walker bug cannot pass silently.
+func c01WalkMessages(data []byte) []c01Msg {
+	u32 := func(i int) uint32 { return binary.LittleEndian.Uint32(data[i:]) }
+	u16 := func(i int) int { return int(binary.LittleEndian.Uint16(data[i:])) }
+	var out []c01Msg
+	pos := 0
+	for pos < len(data) {
+		if pos+8 > len(data) || u32(pos) != 0xFFFFFFFF {
+			panic(fmt.Sprintf("c01: walker lost the framing at %d", pos))
+		}
+		ml := int(u32(pos + 4))
+		pos += 8
+		if ml == 0 { // end-of-stream marker; another stream may follow
+			continue
+		}
+		root := pos + int(u32(pos))
+		vt := root - int(int32(u32(root)))
+		bl := 0
+		if u16(vt) > 10 { // Message.bodyLength is the fourth field: vtable slot 10
+			if off := u16(vt + 10); off != 0 {
+				bl = int(int64(binary.LittleEndian.Uint64(data[root+off:])))
+			}
+		}
+		out = append(out, c01Msg{metaStart: pos, metaLen: ml, bodyStart: pos + ml, bodyLen: bl})
+		pos += ml + bl
+	}
+	if pos != len(data) {
+		panic("c01: walker overran the data")
+	}
+	return out
+}
+
+// c01StructBodies are the valid bodies whose record-batch buffers and
+// flatbuffer metadata are corrupted word by word: result envelopes (plain,
+// after a log batch, with a NULL result so that a validity bitmap exists), a
+// request with int64 / utf8 / binary columns, a header + token body.
+func c01StructBodies() (names []string, bodies [][]byte) {
+	res := []c01Field{{Name: "result", Type: "binary"}}
+	add := func(n string, b []byte) { names, bodies = append(names, n), append(bodies, b) }
+	env, _ := c01Encode([]c01Seg{{Kind: "wres", Schema: res, Result: []byte("payload")}})
+	add("env", env)
+	envLog, _ := c01Encode([]c01Seg{{Kind: "raw", Schema: res, Term: "eos", Batches: []c01Batch{
+		{Kind: "raw", Cols: [][][]byte{{}}, Meta: []c01KV{{K: []byte(vgirpc.MetaLogLevel), V: []byte("INFO")}, {K: []byte(vgirpc.MetaLogMessage), V: []byte("l")}}},
+		{Kind: "raw", Rows: 1, Cols: [][][]byte{{[]byte("after-log")}}}}}})
+	add("envlog", envLog)
+	{ // a NULL result: the column carries a validity bitmap and null_count = 1
+		sc := c01Schema(res)
+		b := array.NewBinaryBuilder(memory.DefaultAllocator, arrow.BinaryTypes.Binary)
+		b.AppendNull()
+		arr := b.NewArray()
+		rec := array.NewRecordBatch(sc, []arrow.Array{arr}, 1)
+		var buf bytes.Buffer
+		w := ipc.NewWriter(&buf, ipc.WithSchema(sc))
+		if err := w.Write(rec); err != nil {
+			panic(err)
+		}
+		w.Close()
+		rec.Release()
+		arr.Release()
+		b.Release()
+		add("envnull", buf.Bytes())
+	}
+	xsb := []c01Field{{Name: "x", Type: "int64"}, {Name: "s", Type: "utf8"}, {Name: "b", Type: "binary"}}
+	req, _ := c01Encode([]c01Seg{{Kind: "wreq", Method: []byte("m"), Schema: xsb, Rows: 1,
+		Cols: [][][]byte{{[]byte("7")}, {[]byte("str")}, {[]byte("bin")}}, Version: []byte("1.2.3")}})
+	add("req", req)
+	tok, _ := c01Encode([]c01Seg{
+		{Kind: "raw", Schema: []c01Field{{Name: "h", Type: "utf8"}}, Term: "eos", Batches: []c01Batch{{Kind: "raw", Rows: 1, Cols: [][][]byte{{[]byte("hd")}}}}},
+		{Kind: "raw", Schema: []c01Field{{Name: "v", Type: "binary"}}, Term: "eos", Batches: []c01Batch{
+			{Kind: "raw", Rows: 1, Cols: [][][]byte{{[]byte("d")}}}, {Kind: "token", Tok: []byte("CUR"), Call: []byte("CALL")}}}})
+	add("tok", tok)
+	return
+}
+
+// c01StructCases rewrites individual aligned 32-bit words of every message of
+// the struct bodies with boundary values. bodyCases touch the record-batch
+// BODY (offsets buffers of binary/utf8 columns, validity bitmaps, values):
+// each word alone, then adjacent pairs (swapped, both negative). metaCases
+// touch the flatbuffer metadata (FieldNode length / null_count, Buffer
+// offset / length, vector lengths, vtable offsets). Sign-bit values first.
+func c01StructCases() (bodyCases, metaCases []c01In) {
+	names, bodies := c01StructBodies()
+	put := func(b []byte, at int, v uint32) { binary.LittleEndian.PutUint32(b[at:], v) }
+	for bi, data := range bodies {
+		for mi, m := range c01WalkMessages(data) {
+			words := func(start, n int, kind string, sink *[]c01In) {
+				for w := 0; w+4 <= n; w += 4 {
+					at := start + w
+					cur := binary.LittleEndian.Uint32(data[at:])
+					next := uint32(0)
+					if w+8 <= n {
+						next = binary.LittleEndian.Uint32(data[at+4:])
+					}
+					vals := []struct {
+						n string
+						v uint32
+					}{{"80000000", 0x80000000}, {"ffffffff", 0xFFFFFFFF}, {"80000001", 0x80000001}, {"7fffffff", 0x7FFFFFFF},
+						{"len+1", uint32(n + 1)}, {"next+1", next + 1}, {"cur+1", cur + 1}, {"one", 1}, {"zero", 0}}
+					for _, val := range vals {
+						if val.v == cur {
+							continue
+						}
+						b := append([]byte{}, data...)
+						put(b, at, val.v)
+						*sink = append(*sink, c01In{Mal: true, Note: fmt.Sprintf("struct-%s-msg%d-%s-w%d-%s", names[bi], mi, kind, w/4, val.n), Data: b})
+					}
+					if kind == "body" && w+8 <= n {
+						pairs := []struct {
+							n    string
+							a, b uint32
+						}{{"both-80000000", 0x80000000, 0x80000000}, {"both-ffffffff", 0xFFFFFFFF, 0xFFFFFFFF}, {"neg-pair", 0xFFFFFFF0, 0xFFFFFFF8}, {"swapped", next, cur}}
+						for _, pr := range pairs {
+							if pr.a == cur && pr.b == next {
+								continue
+							}
+							b := append([]byte{}, data...)
+							put(b, at, pr.a)
+							put(b, at+4, pr.b)
+							*sink = append(*sink, c01In{Mal: true, Note: fmt.Sprintf("struct-%s-msg%d-body-w%d-%s", names[bi], mi, w/4, pr.n), Data: b})
+						}
+					}
+				}
+			}
+			words(m.bodyStart, m.bodyLen, "body", &bodyCases)
+			words(m.metaStart, m.metaLen, "meta", &metaCases)
+		}
+	}
+	return
+}
+
 func c01Gen(r *rand.Rand, n int, tier string) []c01In {
 	out := c01Boundary()
 	nStruct := n / 2
@@ -1064,9 +1208,33 @@ func c01Gen(r *rand.Rand, n int, tier string) []c01In {
 		}
 		out = append(out, in)
 	}
-	// malformed stream: truncations of the small bodies first (every one in the
-	// thorough tier), then (for a quarter of the budget) bit flips, random bytes
-	// and random splices.
+	// structure-aware corruption first: every word of every result-envelope body
+	// with every boundary value in every tier (request / token bodies: every
+	// value in the thorough tier, the sign-bit and ordering values in the quick tier); the flatbuffer metadata words exhaustively in the thorough
+	// tier and as an even spread of 120 in the quick tier.
+	bodyCases, metaCases := c01StructCases()
+	for _, c := range bodyCases {
+		if tier != "thorough" && !strings.HasPrefix(c.Note, "struct-env") {
+			// quick tier: request / token bodies get the sign-bit and ordering values only
+			keep := false
+			for _, suf := range []string{"-80000000", "-ffffffff", "-swapped", "-len+1"} {
+				keep = keep || strings.HasSuffix(c.Note, suf)
+			}
+			if !keep {
+				continue
+			}
+		}
+		out = append(out, c)
+	}
+	if tier == "thorough" {
+		out = append(out, metaCases...)
+	} else {
+		for i := 0; i < 120 && i < len(metaCases); i++ {
+			out = append(out, metaCases[i*len(metaCases)/120])
+		}
+	}
+	// then truncations of the small bodies (every one in the thorough tier),
+	// then bit flips, random bytes and random splices.
 	bodies := c01SmallBodies()
 	var truncs []c01In
 	for bi, b := range bodies {
@@ -1079,7 +1247,7 @@ func c01Gen(r *rand.Rand, n int, tier string) []c01In {
 	if tier == "thorough" {
 		out = append(out, truncs...)
 	} else {
-		keep := (n - nStruct) * 5 / 8
+		keep := (n - nStruct) * 3 / 8
 		for i := 0; i < keep; i++ {
 			out = append(out, truncs[i*len(truncs)/keep])
 		}
@@ -1087,7 +1255,7 @@ func c01Gen(r *rand.Rand, n int, tier string) []c01In {
 	if tier == "thorough" {
 		n = len(out) + (n-nStruct)/2
 	} else {
-		n = len(out) + (n-nStruct)*3/8 // the slow inputs (huge declared lengths through ReadRequest) live here
+		n = len(out) + (n-nStruct)/4 // the slow inputs (huge declared lengths through ReadRequest) live here
 	}
 	for len(out) < n {
 		b := append([]byte{}, bodies[r.Intn(len(bodies))]...)
@@ -1142,7 +1310,10 @@ const (
 
 // c01ChildMain is the child's loop: length-prefixed byte strings in, one JSON
 // line per input out.
+var c01InChild bool
+
 func c01ChildMain() {
+	c01InChild = true
 	// cap the data segment (private writable memory: heap, stacks) at its idle
 	// size + headroom: a reader that asks for more on a small body makes the Go
 	// runtime die with an unrecoverable fatal error, exactly as it would in a
@@ -1285,6 +1456,6 @@ func init() {
 		c01ChildMain()
 		os.Exit(0)
 	}
-	Register("C01", "boundary bodies first (every listed method incl. 14 invalid-UTF-8 ones x {no params, one-row params}, rows{0,1,2} x fields{0,3}, every version string, result envelopes over every column type, header+token streams), then random bodies: real WriteRequest output, raw request streams with independently absent/duplicated/wrong metadata keys, 1-4 concatenated header/log/data/token streams (tokens stamped by writeStateTokenBatch or hand-made with empty/duplicate values) with eos/eof/broken/junk endings, result envelopes; then the malformed stream (every truncation of 4 small valid bodies, bit flips, random bytes, splices). Non-trivial = the body has at least one byte; distinct = distinct input JSON",
+	Register("C01", "boundary bodies first (every listed method incl. 14 invalid-UTF-8 ones x {no params, one-row params}, rows{0,1,2} x fields{0,3}, every version string, result envelopes over every column type, header+token streams), then random bodies: real WriteRequest output, raw request streams with independently absent/duplicated/wrong metadata keys, 1-4 concatenated header/log/data/token streams (tokens stamped by writeStateTokenBatch or hand-made with empty/duplicate values) with eos/eof/broken/junk endings, result envelopes; then the malformed stream, each input run in a memory-capped child process: structure-aware corruption (every aligned 32-bit word of every record-batch body of 5 valid bodies - result envelopes plain / after a log / with a NULL result, a request with int64+utf8+binary columns, header+token streams - rewritten with 0x80000000, 0xFFFFFFFF, 0x80000001, 0x7FFFFFFF, len+1, next+1, cur+1, 1, 0 and adjacent pairs swapped / both negative; the flatbuffer metadata words likewise, exhaustively in the thorough tier), truncations of 4 small valid bodies (every one in the thorough tier), bit flips, random bytes, splices. Non-trivial = the body has at least one byte; distinct = distinct input JSON",
 		c01Gen, c01Run)
 }
